@@ -353,14 +353,34 @@ func c07Requeue(c *Ctx) *RuleResult {
 	p := c.P
 	for _, u := range p.UnitsIn("pkg/blobstore") {
 		info := u.Info()
+		// the function body (closure or helper method) that writes a dequeued handle: the innermost
+		// one containing X.Put(..., Y.handle.digest, ...)
+		var bodies []ast.Node
+		bodies = append(bodies, u.Decl)
 		ast.Inspect(u.Decl.Body, func(n ast.Node) bool {
-			fl, ok := n.(*ast.FuncLit)
-			if !ok {
-				return true
+			if fl, ok := n.(*ast.FuncLit); ok {
+				bodies = append(bodies, fl)
+			}
+			return true
+		})
+		for _, n := range bodies {
+			type fnBody struct {
+				Body *ast.BlockStmt
+				ast.Node
+			}
+			var fl fnBody
+			switch x := n.(type) {
+			case *ast.FuncLit:
+				fl = fnBody{x.Body, x}
+			case *ast.FuncDecl:
+				fl = fnBody{x.Body, x}
 			}
 			// closure that writes a dequeued handle: calls X.Put with Y.handle.digest
 			var handleExpr string
 			ast.Inspect(fl.Body, func(m ast.Node) bool {
+				if inner, ok := m.(*ast.FuncLit); ok && ast.Node(inner) != fl.Node {
+					return false
+				}
 				if call, ok := m.(*ast.CallExpr); ok {
 					if sel, ok := ast.Unparen(call.Fun).(*ast.SelectorExpr); ok && sel.Sel.Name == "Put" && len(call.Args) >= 2 {
 						if s := exprStr(call.Args[1]); strings.HasSuffix(s, ".handle.digest") {
@@ -371,7 +391,7 @@ func c07Requeue(c *Ctx) *RuleResult {
 				return true
 			})
 			if handleExpr == "" {
-				return true
+				continue
 			}
 			spec := &OblSpec{Name: "requeue", Min: 1, Max: 1,
 				AtEntry: []Born{{Key: handleExpr, Pos: fl.Body.Pos()}},
@@ -390,8 +410,7 @@ func c07Requeue(c *Ctx) *RuleResult {
 			for _, v := range res.Violations {
 				r.bad(c.Prop, construct, posOf(p, fl), fmt.Sprintf("a dequeued handle is put back %d times on the path to the %s: after a failed write its statistics are never written (or it is queued twice)", v.Count, oblExitDesc(p, v)))
 			}
-			return true
-		})
+		}
 	}
 	return r
 }
